@@ -293,6 +293,14 @@ impl Zone {
         }
         self.origin.clone()
     }
+    /// `name` itself if it exists in the zone, else its closest encloser.
+    pub fn closest_encloser_or_self(&self, name: &Name) -> Name {
+        if !name.strictly_below(&self.origin) || self.exists(name) {
+            name.clone()
+        } else {
+            self.closest_encloser(name)
+        }
+    }
     /// All RRs owned by `owner`, as a flat list.
     pub fn rrs_at(&self, owner: &Name) -> Vec<Rr> {
         let mut v = vec![];
